@@ -5,6 +5,7 @@ mod c04;
 mod c07;
 mod c08;
 mod c09;
+mod c10;
 mod c14;
 mod c15;
 mod c16;
@@ -68,6 +69,7 @@ fn main() {
         "C07" => c07::run(&ctx),
         "C08" => c08::run(&ctx),
         "C09" => c09::run(&ctx),
+        "C10" => c10::run(&ctx),
         "C14" => c14::run(&ctx),
         "C15" => c15::run(&ctx),
         "C16" => c16::run(&ctx),
@@ -84,6 +86,7 @@ fn replay(id: &str, v: &serde_json::Value) -> i32 {
         "C07" => c07::replay(v),
         "C08" => c08::replay(v),
         "C09" => c09::replay(v),
+        "C10" => c10::replay(v),
         "C14" => c14::replay(v),
         "C15" => c15::replay(v),
         "C16" => c16::replay(v),
